@@ -1,7 +1,7 @@
 (* C09 — conditionals and format selectors include or elide exactly their scope. *)
 From Coq Require Import List NArith Bool String.
 Import ListNotations.
-Require Import St Exp Proc1 Proc2 Proc3 Ctl Loop Doc IfProofs.
+Require Import St Exp Proc1 Proc2 Proc3 Ctl Loop Doc IfProofs IfTrue.
 Open Scope string_scope.
 
 (* False branch, for every conditional block, every nesting, every body, every recursive entry pb, every format:
@@ -23,7 +23,35 @@ Proof. exact false_conditional_is_absent. Qed.
 Theorem C09_ignored_region : forall pb body, bal body -> forall c s, (0 < ifdepth s)%nat -> panicked s = None ->
   exists s', walk pb body (c, s) = (c, s') /\ s' =c= s /\ panicked s' = None.
 Proof. exact ignored_region. Qed.
+(* True branch, the two delimiter lines, for every body, every arguments, every format: the #if line of a conditional
+   whose condition holds (the ignore depth stays 0) changes nothing in the control state and, in the rendering state,
+   only pushes one scope on the conditional stack (registers and log apart); the body then runs from that state; and if
+   the body ends not ignoring, outside a definition and with that scope on top (its own conditionals and definitions
+   are closed), the #; line only pops the scope.  So the whole block leaves what the body leaves.
+   PARTIAL: that the body's processing does not depend on the extra scope -- so that the state it leaves is the one
+   it leaves in the document without the two lines -- is not proved here (the conditional stack is read only by
+   #if, #; and the end-of-file sweep); the correspondence stream S-e2e-if compares the outputs of both documents. *)
+Theorem C09_true_branch_delimiters_partial : forall pb a l body a2 l2 c s,
+  let b := BMacro (R "#if") a l in let e := BMacro (R "#;") a2 l2 in
+  ifdepth s = 0%nat -> udef s = None -> elided s = false -> panicked s = None ->
+  (inl s = true \/ assoc (R "#if") (umacros s) = None) ->
+  ifdepth (macro_if_start (set_regs b s)) = 0%nat ->
+  exists sc s1, s1 =c= s <| sif ::= fun x => (x ++ [sc])%list |> /\ panicked s1 = None /\
+    walk pb (b :: body ++ [e])%list (c, s) = walk pb (body ++ [e])%list (c, s1) /\
+    forall c2 s2, walk pb body (c, s1) = (c2, s2) -> panicked s2 = None ->
+      ifdepth s2 = 0%nat -> udef s2 = None -> elided s2 = false -> (inl s2 = true \/ assoc (R "#;") (umacros s2) = None) ->
+      sif s2 = (sif s ++ [sc])%list ->
+      exists s3, walk pb (b :: body ++ [e])%list (c, s) = (c2, s3) /\ s3 =c= s2 <| sif := sif s |> /\ panicked s3 = None.
+Proof. exact true_conditional_delimiters. Qed.
+(* the closing line alone, met while not ignoring: it pops the innermost conditional scope and nothing else *)
+Theorem C09_end_line_only_pops : forall pb a l c s sc r,
+  ifdepth s = 0%nat -> udef s = None -> elided s = false ->
+  (inl s = true \/ assoc (R "#;") (umacros s) = None) -> sif s = (r ++ [sc])%list ->
+  exists s1, step pb (BMacro (R "#;") a l) (c, s) = (c, s1) /\ s1 =c= s <| sif := r |> /\ panicked s1 = panicked s.
+Proof. exact active_end_line. Qed.
 Print Assumptions C09_false_branch.
+Print Assumptions C09_true_branch_delimiters_partial.
+Print Assumptions C09_end_line_only_pops.
 Print Assumptions C09_ignored_region.
 Definition same_output (f a b : string) : bool := str_eqb (out_of (run_doc f 0 a)) (out_of (run_doc f 0 b)).
 (* a false conditional with a nested one, between a link and the end of markup (the mom PrevMacro case, D10) *)
